@@ -64,6 +64,50 @@ fn flush(out: &mut std::fs::File, force: bool) {
     }
 }
 
+/// progress marker for the hang watchdog: (current history, ops started so far, when)
+static PROGRESS: std::sync::Mutex<Option<(String, usize, std::time::Instant)>> =
+    std::sync::Mutex::new(None);
+
+fn mark_progress(name: Option<&str>) {
+    if let Ok(mut p) = PROGRESS.lock() {
+        let (n, k) = match (p.take(), name) {
+            (_, Some(n)) => (n.to_string(), 0),
+            (Some((n, k, _)), None) => (n, k + 1),
+            (None, None) => (String::new(), 0),
+        };
+        *p = Some((n, k, std::time::Instant::now()));
+    }
+}
+
+/// a history op that does not return within the limit (an unbounded loop inside the crate
+/// that the child-poll watchdog cannot see, e.g. a corrupted ready queue) ends the run:
+/// `<trace>.hang` names the history, exit code 3
+fn start_hang_watchdog(trace_path: String) {
+    let limit = std::env::var("FBHARNESS_HANG_SECS")
+        .ok()
+        .and_then(|v| v.parse::<u64>().ok())
+        .unwrap_or(30);
+    std::thread::spawn(move || loop {
+        std::thread::sleep(std::time::Duration::from_millis(500));
+        let stuck = PROGRESS.lock().ok().and_then(|p| {
+            p.as_ref().and_then(|(n, k, t)| {
+                if t.elapsed().as_secs() >= limit {
+                    Some((n.clone(), *k))
+                } else {
+                    None
+                }
+            })
+        });
+        if let Some((n, k)) = stuck {
+            let _ = std::fs::write(
+                format!("{trace_path}.hang"),
+                format!("hang {n} op {k} limit_s {limit}\n"),
+            );
+            std::process::exit(3);
+        }
+    });
+}
+
 fn main() {
     let args: Vec<String> = std::env::args().collect();
     if args.len() == 2 && args[1] == "--layout" {
@@ -102,6 +146,9 @@ fn main() {
         child::WATCHDOG.store(n, std::sync::atomic::Ordering::Relaxed);
     }
 
+    let _ = std::fs::remove_file(format!("{}.hang", args[2]));
+    start_hang_watchdog(args[2].clone());
+
     let li = futures_buffered::verif::layout_info();
     g(|g| {
         g.slice_offset = li.slice_offset;
@@ -130,6 +177,7 @@ fn main() {
                 fail(lineno, "expected `hist <name>`");
             }
             in_hist = true;
+            mark_progress(Some(rest));
             pending = Some(Pending {
                 spec: None,
                 inits: Vec::new(),
@@ -139,6 +187,7 @@ fn main() {
             continue;
         }
 
+        mark_progress(None);
         if kw == "endhist" {
             match hist.take() {
                 Some(h) => h.finish(),
@@ -215,6 +264,9 @@ fn main() {
             None => reset_history(false),
         }
         logf!("endhist");
+    }
+    if let Ok(mut p) = PROGRESS.lock() {
+        *p = None;
     }
     flush(&mut outf, true);
 }
